@@ -347,6 +347,9 @@ void wwSetBits(word a[], size_t pos, size_t width, register word val)
 	size_t n = pos / B_PER_W;
 	ASSERT(wwIsValid(a, W_OF_B(pos + width)));
 	ASSERT(width <= B_PER_W);
+	// нечего устанавливать?
+	if (width == 0)
+		return;
 	// маска
 	if (width < B_PER_W)
 	{
